@@ -2,6 +2,7 @@
 #pragma once
 #include "../engine/pbt.hpp"
 
+#include <algorithm>
 #include <cstring>
 #include <memory>
 #include <string>
@@ -32,6 +33,111 @@ inline std::string gen_over(pbt::Source& src, const std::string& alphabet, size_
     return s;
 }
 
+// ---- scale classes ("long inputs") ------------------------------------------------------------------------------
+// The targets *_long run the very same property bodies with long_mode() switched on: every primary string argument is
+// then produced by gen_main() from a length class (power-of-two boundaries 15..4097, 41..5000 uniform, rarely
+// 65535..66000), a content shape and a 32-bit seed that are drawn from the choice bytes and expanded with a local
+// PRNG (the case stays a pure function of its bytes). With long_mode() off gen_main() is gen_over(): the byte -> case
+// mapping of the original targets is unchanged.
+inline bool& long_mode() {
+    static bool on = false;
+    return on;
+}
+
+struct Rng {
+    uint64_t s;
+    explicit Rng(uint64_t seed) : s(seed * 0x9E3779B97F4A7C15ull + 0x1234567ull) {}
+    uint64_t next() {
+        uint64_t z = (s += 0x9E3779B97F4A7C15ull);
+        z = (z ^ (z >> 30)) * 0xBF58476D1CE4E5B9ull;
+        z = (z ^ (z >> 27)) * 0x94D049BB133111EBull;
+        return z ^ (z >> 31);
+    }
+    size_t below(size_t n) { return n <= 1 ? 0 : (size_t)(next() % n); }
+    bool one_in(size_t n) { return below(n) == 0; }
+};
+
+enum { HUGE_NO = 0, HUGE_OK = 1 };
+
+//! a length from the scale classes. `cap` bounds the result (quadratic oracles), `huge` admits >= 65535 (rare)
+inline size_t gen_long_len(pbt::Source& src, size_t cap = 5000, int huge = HUGE_NO) {
+    static const size_t B[] = {16, 24, 32, 64, 128, 256, 512, 1024, 2048, 4096};
+    size_t n;
+    switch (src.weighted({6, 6, 3, 3, 3, 5, 5, 1})) {
+    case 0: n = 256 + (size_t)src.range(0, 2) - 1; break;                 // 255 256 257
+    case 1: n = B[src.range(0, 9)] + (size_t)src.range(0, 2) - 1; break;  // 2^k - 1, 2^k, 2^k + 1
+    case 2: n = 512 + (size_t)src.range(0, 2) - 1; break;
+    case 3: n = (size_t)src.range(258, 320); break;                       // just above the 8-bit boundary
+    case 4: n = (size_t)src.range(13, 254); break;
+    case 5: n = (size_t)src.range(41, 1000); break;
+    case 6: n = (size_t)src.range(1000, 5000); break;
+    default: n = huge == HUGE_OK ? 65535 + (size_t)src.range(0, 465) : (size_t)src.range(1000, 5000); break;
+    }
+    if (n > cap) n = cap - n % 5;
+    return n;
+}
+
+inline void label_len(size_t n) {
+    pbt::label(n < 255     ? "len:<255"
+               : n <= 257  ? "len:255..257"
+               : n <= 510  ? "len:258..510"
+               : n <= 513  ? "len:511..513"
+               : n <= 1025 ? "len:514..1025"
+               : n < 65535 ? "len:1026..5000"
+                           : "len:>=65535");
+}
+
+//! n letters of `alphabet` in one of four shapes: 0 uniform, 1 one dominant letter with rare others, 2 a short period
+//! (drawn from the choice bytes) repeated, 3 runs of up to 300 equal letters
+inline std::string gen_shaped(pbt::Source& src, const std::string& alphabet, size_t n) {
+    int shape = (int)src.range(0, 3);
+    size_t dom = src.index(alphabet.size());
+    unsigned rate = 1u << src.range(1, 8);
+    std::string period;
+    if (shape == 2) {
+        size_t pl = (size_t)src.range(1, 6);
+        for (size_t i = 0; i < pl; ++i) period += alphabet[src.index(alphabet.size())];
+    }
+    Rng rng(src.bits(4));
+    std::string s;
+    if (alphabet.empty()) return s;
+    s.reserve(n);
+    while (s.size() < n) {
+        switch (shape) {
+        case 0: s += alphabet[rng.below(alphabet.size())]; break;
+        case 1: s += rng.one_in(rate) ? alphabet[rng.below(alphabet.size())] : alphabet[dom]; break;
+        case 2: s += period[s.size() % period.size()]; break;
+        default: {
+            size_t run = 1 + rng.below((size_t)1 << rng.below(9));
+            if (run > 300) run = 300;
+            s.append(std::min(run, n - s.size()), alphabet[rng.below(alphabet.size())]);
+            break;
+        }
+        }
+    }
+    PBT_LOG("  [long string: " << n << " bytes, shape " << shape << "]\n");
+    return s;
+}
+
+inline std::string gen_long(pbt::Source& src, const std::string& alphabet, size_t cap = 5000, int huge = HUGE_NO) {
+    size_t n = gen_long_len(src, cap, huge);
+    return gen_shaped(src, alphabet, n);
+}
+
+//! a PRIMARY string argument: gen_over() in the original targets, a long string in the *_long targets
+inline std::string gen_main(pbt::Source& src, const std::string& alphabet, size_t maxlen, size_t cap = 5000, int huge = HUGE_NO) {
+    if (!long_mode()) return gen_over(src, alphabet, maxlen);
+    std::string s = gen_long(src, alphabet, cap, huge);
+    label_len(s.size());
+    return s;
+}
+
+//! a SECONDARY string argument (drop set, replacement, ...): short, in the *_long targets sometimes up to 300 bytes
+inline std::string gen_aux(pbt::Source& src, const std::string& alphabet, size_t maxlen) {
+    if (long_mode() && src.chance(64)) return gen_shaped(src, alphabet, (size_t)src.range(0, 300));
+    return gen_over(src, alphabet, maxlen);
+}
+
 inline std::string strip_nul(std::string s) {
     std::string o;
     for (char c : s)
@@ -39,10 +145,21 @@ inline std::string strip_nul(std::string s) {
     return o;
 }
 
-inline std::string show(const std::string& s) { return pbt::show_bytes(s); }
+//! strings over 600 bytes and vectors over 40 entries are abbreviated in messages (the stored case replays them)
+inline std::string show(const std::string& s) {
+    if (s.size() <= 600) return pbt::show_bytes(s);
+    return pbt::show_bytes(s.substr(0, 200)) + "...[" + std::to_string(s.size()) + " bytes]..." + pbt::show_bytes(s.substr(s.size() - 100));
+}
 inline std::string show(const std::vector<std::string>& v) {
     std::string o = "{";
-    for (size_t i = 0; i < v.size(); ++i) o += (i ? ", " : "") + pbt::show_bytes(v[i]);
+    for (size_t i = 0; i < v.size(); ++i) {
+        if (v.size() > 40 && i == 20) {
+            o += ", ...[" + std::to_string(v.size()) + " entries]...";
+            i = v.size() - 11;
+            continue;
+        }
+        o += (i ? ", " : "") + show(v[i]);
+    }
     return o + "}";
 }
 inline std::string show_char(char c) { return "'" + pbt::show_bytes(std::string(1, c)).substr(1, pbt::show_bytes(std::string(1, c)).size() - 2) + "'"; }
